@@ -284,6 +284,7 @@ def run(tier, seed):
     # ---- S16.3 gRPC
     obligations.append(grpc_obligation(prog))
     obligations.append(token_gate_obligation(prog))
+    obligations.append(token_lifetime_obligation(prog))
     obligations.append(validate(prog, seed, 16 if tier == "quick" else 64))
     for ob in obligations:
         if ob.get("verdict") == "violation":
@@ -540,6 +541,104 @@ def token_gate_obligation(prog):
             ob.update({"verdict": "inconclusive", "message": "witness: no path accepts the exact token (vacuous)"})
         else:
             ob.update({"verdict": "discharged", "distinct": nq, "sample": {"paths_explored": len(paths)}})
+        ob["queries"] = it.queries
+    except rsparse.Unsupported as e:
+        ob.update({"verdict": "inconclusive", "message": "encoder met source it cannot encode: %s" % e})
+    return _fin(ob, timer)
+
+
+def token_lifetime_obligation(prog0):
+    """S16.5: the API token issued by the HTTP login handler (do_login, src/openapi/auth.rs) is stored with exactly the configured API
+    token lifetime, which is also the lifetime announced to the client: an expired token is no token. The two configured lifetimes
+    (API, console) are distinct symbolic integers; the raft request route and the user manager are recording sinks."""
+    timer = [0.0, 0]
+    ob = {"engine": "smt", "harness": "s16_5_token_lifetime", "encodes": ["openapi::auth::do_login"], "encodes_files": ["src/openapi/auth.rs"],
+          "bound": "every pair of configured lifetimes (API token, console session: 32-bit, symbolic); login of a valid user", "queries": 0, "solver_s": 0.0, "distinct": 0}
+    try:
+        from .common import load_program
+        prog = load_program(["src/openapi/auth.rs"])
+        fn = prog.fns.get("do_login")
+        if fn is None:
+            raise rsparse.Unsupported("openapi::auth::do_login not found")
+        it = rseval.Interp(prog)
+        it.lenient = True
+        api_ttl, console_ttl = z3.BitVec("openapi_login_timeout", 64), z3.BitVec("console_login_timeout", 64)
+        reqs = []
+
+        class Route:
+            ty = "RaftRoute"
+
+        class Users:
+            ty = "UserManager"
+
+        def route_request(interp, recv, args):
+            reqs.append(args[0])
+            r = args[0]
+            # the login limiter answers "admitted"
+            return Ok(Enum("ClientResponse", "CacheResp", {"resp": Enum("CacheManagerRaftResult", "Limiter", [True])}))
+        it.models[("RaftRoute", "request")] = route_request
+        it.models[("UserManager", "send")] = lambda interp, recv, args: Ok(Ok(Enum("UserManagerResult", "CheckUserResult", [True, Struct("UserDto", {
+            "username": "u", "roles": Some(["r"]), "extend_info": Some({}), "nickname": NONE})])))
+        ttl_seen = []
+
+        def new_with_ttl(interp, args):
+            ttl_seen.append((args[0], args[2]))
+            return Struct("CacheSetParam", {"key": args[0], "value": args[1], "ttl": args[2]})
+        it.fn_models["CacheSetParam::new_with_ttl"] = new_with_ttl
+        it.fn_models["CacheKey::new"] = lambda interp, args: Struct("CacheKey", {"cache_type": args[0], "key": args[1]})
+        json_seen = []
+
+        class Resp:
+            ty = "HttpResponseBuilder"
+        it.fn_models["HttpResponse::Ok"] = lambda interp, args: Resp()
+        it.models[("HttpResponseBuilder", "json")] = lambda interp, recv, args: json_seen.append(args[0]) or Struct("HttpResponse", {"body": args[0]})
+
+        def thunk():
+            del reqs[:], ttl_seen[:], json_seen[:]
+            app = Struct("AppShareData", {"sys_config": Struct("AppSysConfig", {"openapi_login_timeout": api_ttl, "console_login_timeout": console_ttl, "openapi_login_one_minute_limit": 5,
+                                                                                 "openapi_enable_auth": True}),
+                                          "raft_request_route": Route(), "user_manager": Users()})
+            param = Struct("LoginParams", {"username": Some("u"), "password": Some("p")})
+            r = it._invoke(fn, [param, app])
+            return r, list(ttl_seen), list(json_seen)
+        paths = it.explore(thunk)
+        s = z3.Solver()
+        s.add(api_ttl != console_ttl, z3.ULT(api_ttl, 1 << 31), z3.ULT(console_ttl, 1 << 31))
+        nq = 0
+        reached = 0
+        for pc, r, exc in paths:
+            if exc is not None:
+                raise rsparse.Unsupported("panic: %s" % exc)
+            res, ttls, bodies = r
+            sess = [(k, t) for k, t in ttls if isinstance(k, Struct) and "ApiTokenSession" in str(k["cache_type"])]
+            if not bodies:
+                continue
+            reached += 1
+            if len(sess) != 1:
+                ob.update({"verdict": "violation", "tags": ["token-not-stored"], "message": "a successful login stores %d API token sessions" % len(sess), "counterexample": {}})
+                return _fin(ob, timer)
+            announced = bodies[0]["token_ttl"] if isinstance(bodies[0], Struct) and "token_ttl" in bodies[0] else None
+            for what, val in (("stored", sess[0][1]), ("announced", announced)):
+                if val is None:
+                    continue
+                s.push()
+                s.add(*pc)
+                s.add(rseval.to_bv(val) != api_ttl)
+                r2 = solve(s, timer)
+                nq += 1
+                if r2 == z3.sat:
+                    m = s.model()
+                    ob.update({"verdict": "violation", "tags": ["token-lifetime-" + what],
+                               "message": "the API token's %s lifetime (%s s) differs from the configured API token lifetime (%s s): an expired token keeps being accepted / a valid one is dropped"
+                               % (what, m.eval(rseval.to_bv(val), model_completion=True), m.eval(api_ttl, model_completion=True)),
+                               "counterexample": {"openapi_login_timeout": m.eval(api_ttl, model_completion=True).as_long(), "console_login_timeout": m.eval(console_ttl, model_completion=True).as_long()}})
+                    s.pop()
+                    return _fin(ob, timer)
+                s.pop()
+        if reached == 0:
+            ob.update({"verdict": "inconclusive", "message": "reachability witness never reached: a successful login"})
+        else:
+            ob.update({"verdict": "discharged", "distinct": nq, "sample": {"paths_explored": len(paths), "successful_login_paths": reached, "opaque_symbols": sorted(it.opaque_seen)[:12]}})
         ob["queries"] = it.queries
     except rsparse.Unsupported as e:
         ob.update({"verdict": "inconclusive", "message": "encoder met source it cannot encode: %s" % e})
